@@ -43,6 +43,8 @@ pub struct Unit {
     pub fault: u8,
     /// when set the unit is rendered as exactly these bytes
     pub raw: Option<Vec<u8>>,
+    /// white space behind the unit (in front of the ';' or terminator that follows)
+    pub ws_after: Vec<u8>,
     /// for faulty units: the well-formed unit this one was derived from
     /// (rendered in the "good" twin of the message); None = no good version
     pub good: Option<Box<Unit>>,
@@ -68,6 +70,7 @@ impl Unit {
             out.push(if i == 0 { b' ' } else { b',' });
             out.extend_from_slice(a);
         }
+        out.extend_from_slice(&self.ws_after);
     }
     pub fn render(&self) -> Vec<u8> {
         let mut v = Vec::new();
@@ -226,10 +229,11 @@ fn unlist<T: std::str::FromStr>(s: &str) -> Result<Vec<T>, String> {
 
 fn unit_line(u: &Unit, tag: &str) -> String {
     format!(
-        "{tag} colon={} query={} fault={} mnems={} args={} raw={}",
+        "{tag} colon={} query={} fault={} ws={} mnems={} args={} raw={}",
         u.colon as u8,
         u.query as u8,
         u.fault,
+        hex(&u.ws_after),
         if u.mnems.is_empty() { "-".to_string() } else { u.mnems.iter().map(|m| m.replace('%', "%25").replace(' ', "%20").replace('\t', "%09")).collect::<Vec<_>>().join(",") },
         if u.args.is_empty() { "-".to_string() } else { u.args.iter().map(|a| hex(a)).collect::<Vec<_>>().join(",") },
         match &u.raw {
@@ -263,6 +267,10 @@ fn parse_unit(line: &str) -> Result<Unit, String> {
         mnems,
         args,
         raw,
+        ws_after: match m.get("ws") {
+            Some(w) => unhex(w)?,
+            None => Vec::new(),
+        },
         good: None,
     })
 }
